@@ -367,6 +367,10 @@ func GenC10(seed uint64) *Scenario {
 				ops = append(ops, Op{ID: g.id(), Kind: "release", Supi: s.supi, Sess: s.name, Final: true,
 					Units: []Unit{{RG: 1, Req: 0, Containers: []Container{g.offline()}}}})
 				live = append(live[:i], live[i+1:]...)
+			case g.r.Chance(120):
+				// a one-time (event) charging request: opens and closes a record, no session
+				ops = append(ops, Op{ID: g.id(), Kind: "create", OneTime: true, Supi: supis[g.r.Intn(len(supis))], Sess: fmt.Sprintf("ev%d", len(ops)),
+					Consumer: c10Names[g.r.Intn(len(c10Names))], ChargingID: 7})
 			default:
 				s := &sessState{name: fmt.Sprintf("c%d", n), supi: supis[g.r.Intn(len(supis))]}
 				ops = append(ops, Op{ID: g.id(), Kind: "create", Supi: s.supi, Sess: s.name, Consumer: c10Names[g.r.Intn(len(c10Names))], ChargingID: int32(n)})
@@ -419,17 +423,34 @@ func GenC10(seed uint64) *Scenario {
 				p := fam[(t+k)%len(fam)]
 				supi, consumer = p[0], p[1]
 			}
+			if g.r.Chance(200) {
+				ops = append(ops, Op{ID: g.id(), Kind: "create", OneTime: true, Supi: supi, Sess: "ev" + name, Consumer: consumer, ChargingID: 7})
+			}
 			ops = append(ops, Op{ID: g.id(), Kind: "create", Supi: supi, Sess: name, Consumer: consumer, ChargingID: int32(t*10 + k)})
 			if g.r.Chance(500) {
 				ops = append(ops, Op{ID: g.id(), Kind: "update", Supi: supi, Sess: name, Units: []Unit{{RG: 1, Req: 10, Containers: []Container{g.offline()}}}})
+			}
+			if g.r.Chance(150) {
+				// create, release, create again: the subscriber's last session goes away while others create
+				ops = append(ops, Op{ID: g.id(), Kind: "release", Supi: supi, Sess: name, Final: true})
+				name += "b"
+				ops = append(ops, Op{ID: g.id(), Kind: "create", Supi: supi, Sess: name, Consumer: consumer, ChargingID: int32(t*10 + k)})
 			}
 		}
 		g.sc.Tasks = append(g.sc.Tasks, Task{ID: t, StartNs: g.r.Range(0, window), Ops: ops})
 	}
 	// epilogue: address every reference
+	rel := map[string]bool{}
 	for _, t := range g.sc.Tasks {
 		for _, o := range t.Ops {
-			if o.Kind == "create" {
+			if o.Kind == "release" {
+				rel[o.Sess] = true
+			}
+		}
+	}
+	for _, t := range g.sc.Tasks {
+		for _, o := range t.Ops {
+			if o.Kind == "create" && !o.OneTime && !rel[o.Sess] {
 				g.sc.Epilogue = append(g.sc.Epilogue, Op{ID: g.id(), Kind: "update", Supi: o.Supi, Sess: o.Sess, Role: "epilogue",
 					Units: []Unit{{RG: 1, Req: 10, Containers: []Container{g.offline()}}}})
 			}
@@ -656,6 +677,14 @@ func GenC09(seed uint64) *Scenario {
 					ops = append(ops, Op{ID: g.id(), Kind: "update", Supi: cs, Sess: name,
 						Units: []Unit{{RG: 1, Req: 100, Containers: []Container{g.online(0), g.offline()}}}})
 				}
+				if g.r.Chance(150) {
+					ops = append(ops, Op{ID: g.id(), Kind: "create", OneTime: true, Supi: cs, Sess: "ev" + name, Consumer: fmt.Sprintf("smf%d", t), ChargingID: 7})
+				}
+				if g.r.Chance(120) {
+					released[name] = true
+					ops = append(ops, Op{ID: g.id(), Kind: "release", Supi: cs, Sess: name, Final: true,
+						Units: []Unit{{RG: 1, Req: 0, Containers: []Container{g.online(1000)}}}})
+				}
 			default:
 				st := sess[g.r.Intn(len(sess))]
 				if pattern == 0 {
@@ -723,7 +752,7 @@ func GenC09(seed uint64) *Scenario {
 	}
 	for _, t := range g.sc.Tasks {
 		for _, o := range t.Ops {
-			if o.Kind == "create" {
+			if o.Kind == "create" && !o.OneTime {
 				add(o.Supi, o.Sess)
 			}
 		}
